@@ -597,13 +597,14 @@ def key_to_ascending_key(key: GetItemKeyType, size: int) -> GetItemKeyType:
         if key.dtype == DTYPE_BOOL: #type: ignore
             # a Boolean selection is positional and already ascending; sorting it would move the True values to the end
             return key
-        return np.sort(key, kind=DEFAULT_SORT_KIND)
+        # negative integers count from the end: normalize to positions so that ascending integers are ascending positions
+        return np.sort(np.where(key < 0, key + size, key), kind=DEFAULT_SORT_KIND) #type: ignore
 
     if not len(key): #type: ignore
         return key
 
     if isinstance(key, list):
-        return sorted(key)
+        return sorted(k + size if k < 0 else k for k in key)
 
     if isinstance(key, Series):
         return key.sort_index()
